@@ -517,6 +517,15 @@ func (ex *Exec) binop(op token.Token, x, y Value, xt, yt, rt types.Type) Value {
 			}
 			return ex.intArith(op, xv, yv, xt, yt)
 		case isFloatType(xt):
+			if ex.fpAbstract && !(xv.isConst && yv.isConst) {
+				switch op {
+				case token.ADD, token.SUB, token.MUL, token.QUO:
+					// fp=abstract: the result of floating-point arithmetic on symbolic
+					// operands is over-approximated by an arbitrary value
+					ex.stubsHit["floating-point arithmetic on symbolic operands: arbitrary result (fp=abstract)"] = true
+					return ex.tt.Var(ex.newVarName("fpabs"), xv.sort)
+				}
+			}
 			switch op {
 			case token.ADD:
 				return tt.FBin("fp.add", xv, yv)
@@ -738,6 +747,10 @@ func (ex *Exec) convert(x Value, from, to types.Type) Value {
 		if f32 {
 			so, hd = F32Sort, "(_ to_fp 8 24) RNE"
 		}
+		if ex.fpAbstract {
+			ex.stubsHit["integer to floating-point conversion of a symbolic value: arbitrary result (fp=abstract)"] = true
+			return ex.tt.Var(ex.newVarName("fpabs"), so)
+		}
 		if ex.intMode {
 			return tt.app(hd, so, tt.app("to_real", Sort{K: SInt, W: -1}, t))
 		}
@@ -758,6 +771,10 @@ func (ex *Exec) convert(x Value, from, to types.Type) Value {
 				return ex.mkInt(int64(f), to)
 			}
 			return ex.mkUint(uint64(f), to)
+		}
+		if ex.fpAbstract {
+			ex.stubsHit["floating-point to integer conversion of a symbolic value: arbitrary result (fp=abstract)"] = true
+			return ex.newSymInt("fpabs", to, false)
 		}
 		var r *Term
 		if isSigned(to) {
